@@ -15,6 +15,9 @@ import common  # noqa: E402
 
 
 def main():
+    if os.environ.get("PYTHONHASHSEED") != "0":  # reproducible generation: every run uses hash seed 0
+        os.environ["PYTHONHASHSEED"] = "0"
+        os.execv(sys.executable, [sys.executable] + sys.argv)
     ap = argparse.ArgumentParser()
     ap.add_argument("pid")
     g = ap.add_mutually_exclusive_group()
